@@ -9,6 +9,7 @@ mod gitrepo;
 mod order;
 mod pep440;
 mod pipe;
+mod proc;
 mod render;
 mod ron;
 mod sanitizer;
@@ -19,7 +20,9 @@ mod zmodel;
 
 fn main() {
     // a panic in the code under test is data: keep the default hook quiet
-    std::panic::set_hook(Box::new(|_| {}));
+    if std::env::var("ZV_DEBUG").is_err() {
+        std::panic::set_hook(Box::new(|_| {}));
+    }
     let args: Vec<String> = std::env::args().collect();
     if args.len() < 3 {
         eprintln!("usage: zv replay|record <module> ...");
@@ -43,6 +46,9 @@ fn main() {
         ("record", "ron") => ron::record(rest),
         ("replay", "template") => template::replay(rest),
         ("record", "template") => template::record(rest),
+        ("replay", "cli") => proc::replay(rest),
+        ("record", "cli") => proc::record(rest),
+        ("measure", "cli") => proc::measure(rest),
         ("replay", "render") => render::replay(rest),
         ("record", "render") => render::record(rest),
         ("replay", "zerv") => zmodel::replay(rest),
